@@ -45,13 +45,13 @@ pub fn server_child(args: &[String], _input: &str) -> i32 {
   }
 }
 
-struct Server {
+pub(crate) struct Server {
   child: Child,
-  port: u16,
+  pub(crate) port: u16,
 }
 
 impl Server {
-  fn start() -> Result<Server, String> {
+  pub(crate) fn start() -> Result<Server, String> {
     for _attempt in 0..5 {
       let port = {
         let l = TcpListener::bind("127.0.0.1:0").map_err(|e| e.to_string())?;
@@ -90,7 +90,7 @@ impl Server {
     }
     Err("the service did not start listening".to_string())
   }
-  fn alive(&mut self) -> bool {
+  pub(crate) fn alive(&mut self) -> bool {
     matches!(self.child.try_wait(), Ok(None))
   }
 }
@@ -111,14 +111,14 @@ impl Drop for Server {
 }
 
 #[derive(Debug, Clone)]
-struct HttpAnswer {
-  status: u16,
-  content_type: String,
-  body: Vec<u8>,
+pub(crate) struct HttpAnswer {
+  pub(crate) status: u16,
+  pub(crate) content_type: String,
+  pub(crate) body: Vec<u8>,
 }
 
 /// One HTTP/1.1 exchange over a fresh connection (`Connection: close`).
-fn http(port: u16, method: &str, path: &str, content_type: Option<&str>, body: &[u8]) -> Result<HttpAnswer, String> {
+pub(crate) fn http(port: u16, method: &str, path: &str, content_type: Option<&str>, body: &[u8]) -> Result<HttpAnswer, String> {
   let mut s = TcpStream::connect(("127.0.0.1", port)).map_err(|e| format!("connect: {}", e))?;
   let _ = s.set_read_timeout(Some(Duration::from_secs(20)));
   let _ = s.set_write_timeout(Some(Duration::from_secs(20)));
@@ -974,6 +974,8 @@ enum Content {
   Bad64,
   BadUtf8,
   BadXml(u8),
+  /// valid Base64 of valid UTF-8 text that the model parser rejects (not XML, malformed XML, XML that is no DMN model)
+  Rejected(String),
   Model(MDef),
 }
 
@@ -1005,7 +1007,7 @@ struct Service {
 impl Service {
   fn xml(&self, d: &MDef) -> String {
     let body = if d.builds { SERVICE_BODY } else { self.bad_body.unwrap_or(SERVICE_BODY) };
-    model_xml(&d.ns, &d.name, body)
+    model_xml(&xml_attr(&d.ns), &xml_attr(&d.name), body)
   }
   fn content_json(&self, c: &Content) -> String {
     match c {
@@ -1021,6 +1023,7 @@ impl Service {
         };
         json!({"content": base64::encode(text)}).to_string()
       }
+      Content::Rejected(text) => json!({"content": base64::encode(text)}).to_string(),
       Content::Model(d) => json!({"content": base64::encode(self.xml(d))}).to_string(),
     }
   }
@@ -1041,7 +1044,7 @@ impl Service {
       }
       Rq::Clear => Wire { method: "POST", path: "/definitions/clear".into(), content_type: js, body: vec![] },
       Rq::Deploy => Wire { method: "POST", path: "/definitions/deploy".into(), content_type: js, body: vec![] },
-      Rq::Eval { model, invocable, body, .. } => Wire { method: "POST", path: format!("/evaluate/{}/{}", model, invocable), content_type: Some("text/plain"), body: body.clone().into_bytes() },
+      Rq::Eval { model, invocable, body, .. } => Wire { method: "POST", path: format!("/evaluate/{}/{}", path_segment(model), path_segment(invocable)), content_type: Some("text/plain"), body: body.clone().into_bytes() },
       Rq::Framework(k) => match k % 7 {
         0 => Wire { method: "POST", path: "/definitions/add".into(), content_type: js, body: b"{\"content\": ".to_vec() },
         1 => Wire { method: "POST", path: "/definitions/remove".into(), content_type: js, body: b"[1, 2".to_vec() },
@@ -1069,12 +1072,87 @@ fn content_sexp(c: &Content) -> String {
     Content::Bad64 => "b64".into(),
     Content::BadUtf8 => "utf8".into(),
     Content::BadXml(_) => "xml".into(),
-    Content::Model(d) => format!("(m {} {} {})", d.ns, d.name, d.builds),
+    Content::Rejected(_) => "xml".into(),
+    Content::Model(d) => format!("(m {} {} {})", name_sexp(&d.ns), name_sexp(&d.name), d.builds),
   }
 }
 
 fn opt_atom(x: &Option<String>) -> String {
-  x.clone().unwrap_or_else(|| "none".to_string())
+  x.as_ref().map(|s| name_sexp(s)).unwrap_or_else(|| "none".to_string())
+}
+
+/// A namespace / model name on the line to the driver: an atom when it is one, `(s …)` otherwise (white space, …).
+pub(crate) fn name_sexp(s: &str) -> String {
+  if !s.is_empty() && s != "none" && s.chars().all(|c| c.is_ascii_alphanumeric() || matches!(c, '_' | '-' | '.' | ':' | '/')) {
+    s.to_string()
+  } else {
+    Sexp::str(s).to_string()
+  }
+}
+
+/// The text of an XML attribute value that denotes `s` verbatim (literal tabs and line breaks would be normalised to
+/// spaces by the XML reader: they are written as character references).
+pub(crate) fn xml_attr(s: &str) -> String {
+  let mut out = String::new();
+  for c in s.chars() {
+    match c {
+      '&' => out.push_str("&amp;"),
+      '<' => out.push_str("&lt;"),
+      '"' => out.push_str("&quot;"),
+      '\t' => out.push_str("&#9;"),
+      '\n' => out.push_str("&#10;"),
+      '\r' => out.push_str("&#13;"),
+      c => out.push(c),
+    }
+  }
+  out
+}
+
+/// A path segment of a request line that denotes `s` (everything but unreserved ASCII is percent-encoded).
+pub(crate) fn path_segment(s: &str) -> String {
+  let mut out = String::new();
+  for b in s.bytes() {
+    if b.is_ascii_alphanumeric() || matches!(b, b'_' | b'-' | b'.') {
+      out.push(b as char);
+    } else {
+      out.push_str(&format!("%{:02X}", b));
+    }
+  }
+  out
+}
+
+/// A text of at least 260 bytes that the model parser rejects, in which byte offset `off` (≥ 1) is the `j`-th byte
+/// (1 ≤ j < width) of a `width`-byte character. `kind`: 0 not XML, 1 malformed XML, 2 well-formed XML that is no DMN
+/// model, 3 a `definitions` element without its mandatory name.
+fn rejected_text(kind: usize, off: usize, width: usize, j: usize) -> String {
+  let ch = match width {
+    2 => 'ż',
+    3 => '€',
+    _ => '🙏',
+  };
+  let j = j.clamp(1, width - 1).min(off);
+  let start = off - j;
+  let (head, tail): (&str, &str) = match kind % 4 {
+    1 if start >= 3 => ("<a>", "</b>"),
+    2 if start >= 7 => ("<model>", "</model>"),
+    3 if start >= 24 => ("<definitions namespace=\"", "\"/>"),
+    _ => ("", ""),
+  };
+  let filler = "this is not a decision model ";
+  let mut t = String::from(head);
+  let mut k = 0;
+  while t.len() < start {
+    t.push(filler.as_bytes()[k % filler.len()] as char);
+    k += 1;
+  }
+  t.push(ch);
+  while t.len() + tail.len() < 260 {
+    t.push(filler.as_bytes()[k % filler.len()] as char);
+    k += 1;
+  }
+  t.push_str(tail);
+  debug_assert!(!t.is_char_boundary(off));
+  t
 }
 
 fn run_http(cfg: &Cfg, rep: &mut Report, model: &mut Model, rng: &mut Rng) {
@@ -1118,7 +1196,8 @@ fn run_http(cfg: &Cfg, rep: &mut Report, model: &mut Model, rng: &mut Rng) {
 
   let mut sequences: Vec<Vec<Rq>> = vec![];
   // corpus: the witnesses of the former findings F18 (replace of a stored model) and F17a/F17b (echo)
-  let echo = |g: &G| Rq::Eval { model: "n1".into(), invocable: "E".into(), body: format!("{{x: {}}}", to_feel(g)), sent: Some(g.clone()) };
+  let echo_of = |model: &str, g: &G| Rq::Eval { model: model.to_string(), invocable: "E".into(), body: format!("{{x: {}}}", to_feel(g)), sent: Some(g.clone()) };
+  let echo = |g: &G| echo_of("n1", g);
   sequences.push(vec![
     Rq::Add(Content::Model(models[0].clone())),
     Rq::Deploy,
@@ -1208,6 +1287,123 @@ fn run_http(cfg: &Cfg, rep: &mut Report, model: &mut Model, rng: &mut Rng) {
     }
     sequences.push(seq);
   }
+  let n_random_sequences = sequences.len();
+
+  // ---- rejected contents with multi-byte characters at every byte offset: a content the model parser rejects is
+  // answered in the errors member whatever its bytes are, and the ordinary requests that follow are answered as the
+  // handler specification says (the workspace is unchanged and goes on serving)
+  {
+    let mut contents: Vec<String> = vec![];
+    for off in 1..=200usize {
+      for width in [2usize, 3, 4] {
+        let j = 1 + (off / 4 + width) % (width - 1);
+        contents.push(rejected_text(off + width, off, width, j));
+      }
+    }
+    // nothing but multi-byte characters, after 0..width-1 bytes of ASCII: whatever offset is looked at, it is inside
+    // a character for all but one of the shifts
+    for (ch, width) in [("ż", 2usize), ("€", 3), ("🙏", 4)] {
+      for shift in 0..width {
+        contents.push(format!("{}{}", "x".repeat(shift), ch.repeat(3000 / width)));
+        contents.push(format!("<model>{}{}</model>", "x".repeat(shift), ch.repeat(900 / width)));
+      }
+    }
+    rep.extra.insert("rejected_contents_with_multibyte_characters".into(), json!(contents.len()));
+    let (a, b) = (models[0].clone(), models[4].clone());
+    for (gi, group) in contents.chunks(8).enumerate() {
+      let mut seq = vec![Rq::Add(Content::Model(a.clone())), Rq::Deploy, Rq::Eval { model: a.name.clone(), invocable: "D".into(), body: "{}".into(), sent: None }];
+      for (ci, text) in group.iter().enumerate() {
+        let c = Content::Rejected(text.clone());
+        seq.push(if (gi + ci) % 2 == 0 { Rq::Add(c) } else { Rq::Replace(c) });
+        // an ordinary request after every rejected one
+        seq.push(match (gi + ci) % 8 {
+          0 | 4 => Rq::Eval { model: a.name.clone(), invocable: "D".into(), body: "{}".into(), sent: None },
+          1 => Rq::Add(Content::Model(b.clone())),
+          2 => Rq::Deploy,
+          3 => echo_of(&a.name, &G::Str(format!("after rejected content #{} ż€🙏", gi * 8 + ci))),
+          5 => Rq::Remove(Some(b.ns.clone()), Some(b.name.clone())),
+          6 => Rq::Replace(Content::Model(a.clone())),
+          _ => Rq::Deploy,
+        });
+      }
+      seq.push(Rq::Deploy);
+      seq.push(Rq::Eval { model: a.name.clone(), invocable: "D".into(), body: "{}".into(), sent: None });
+      sequences.push(seq);
+    }
+  }
+  let n_rejected_sequences = sequences.len() - n_random_sequences;
+
+  // ---- namespaces and names with white space (leading, trailing, doubled inside, tabs, no-break and ideographic
+  // spaces): the handlers pass them to the workspace verbatim, the workspace compares them verbatim — add reports what
+  // it stored, remove with exactly that pair removes, a pair that differs in white space only is another pair
+  {
+    let ws_names = ["n1", " n1", "n1 ", " n1 ", "n  1", "n 1", "n\t1", "\tn1", "n1\u{a0}", "\u{3000}n1", "n1\t"];
+    let ws_nss = ["ns1", " ns1", "ns1 ", " ns1 ", "ns  1", "ns 1", "ns1\t", "\u{a0}ns1", "ns1\u{2003}"];
+    let n_ws = if thorough { 4_000 } else { 260 };
+    for si in 0..n_ws {
+      let mut seq = vec![];
+      let mut added: Vec<(String, String)> = vec![];
+      let len = 3 + rng.below(10) as usize;
+      // a few pairs per sequence, so that they meet again
+      let pool: Vec<(String, String)> = (0..(2 + rng.below(3))).map(|_| (rng.pick(&ws_nss).to_string(), rng.pick(&ws_names).to_string())).collect();
+      // every second sequence: at least one name or namespace with white space at an end is stored first
+      if si % 2 == 0 {
+        let ns = rng.pick(&[" ns1", "ns1 ", " ns1 ", "ns1\t", "\u{a0}ns1"]).to_string();
+        let name = rng.pick(&[" n1", "n1 ", " n1 ", "\tn1", "n1\u{a0}"]).to_string();
+        added.push((ns.clone(), name.clone()));
+        seq.push(Rq::Add(Content::Model(MDef { ns, name, builds: true })));
+        if rng.chance(1, 2) {
+          seq.push(Rq::Deploy);
+        }
+      }
+      for _ in 0..len {
+        let pair = |rng: &mut Rng, added: &Vec<(String, String)>| -> (String, String) {
+          if !added.is_empty() && rng.chance(1, 2) {
+            rng.pick(added).clone()
+          } else {
+            rng.pick(&pool).clone()
+          }
+        };
+        let r = match rng.below(14) {
+          0..=2 => {
+            let (ns, name) = pair(rng, &added);
+            added.push((ns.clone(), name.clone()));
+            Rq::Add(Content::Model(MDef { ns, name, builds: true }))
+          }
+          3 => {
+            let (ns, name) = pair(rng, &added);
+            added.push((ns.clone(), name.clone()));
+            Rq::Replace(Content::Model(MDef { ns, name, builds: true }))
+          }
+          4..=6 => {
+            // exactly a pair that add reported, or one that differs from it in white space / in one key
+            let (ns, name) = pair(rng, &added);
+            match rng.below(6) {
+              0 => Rq::Remove(Some(ns.trim().to_string()), Some(name.trim().to_string())),
+              1 => Rq::Remove(Some(ns), Some("n9".into())),
+              2 => Rq::Remove(Some("ns9".into()), Some(name)),
+              _ => Rq::Remove(Some(ns), Some(name)),
+            }
+          }
+          7 | 8 => Rq::Deploy,
+          9 => Rq::Clear,
+          10..=12 => {
+            let (_, name) = pair(rng, &added);
+            let name = if rng.chance(1, 4) { name.trim().to_string() } else { name };
+            Rq::Eval { model: name, invocable: "D".into(), body: "{}".into(), sent: None }
+          }
+          _ => {
+            let (_, name) = pair(rng, &added);
+            echo_of(&name, &G::Str(name.clone()))
+          }
+        };
+        seq.push(r);
+      }
+      sequences.push(seq);
+    }
+  }
+  rep.extra.insert("http_sequences_rejected_content".into(), json!(n_rejected_sequences));
+  rep.extra.insert("http_sequences_white_space_names".into(), json!(sequences.len() - n_random_sequences - n_rejected_sequences));
 
   // model requests
   let mut reqs = vec![];
@@ -1245,8 +1441,8 @@ fn run_http(cfg: &Cfg, rep: &mut Report, model: &mut Model, rng: &mut Rng) {
             }
           }
           match &v {
-            Ok(v) => parts.push(format!("(eval {} {} ok {})", model, invocable, to_jv(v))),
-            Err(_) => parts.push(format!("(eval {} {} bad (null))", model, invocable)),
+            Ok(v) => parts.push(format!("(eval {} {} ok {})", name_sexp(model), invocable, to_jv(v))),
+            Err(_) => parts.push(format!("(eval {} {} bad (null))", name_sexp(model), invocable)),
           }
           o = Some(v);
         }
@@ -1260,6 +1456,7 @@ fn run_http(cfg: &Cfg, rep: &mut Report, model: &mut Model, rng: &mut Rng) {
   let answers = model.ask_batch(&reqs);
 
   let mut n_requests = 0u64;
+  let mut unanswered = 0u32;
   'seqs: for (((seq, req), ans), os) in sequences.iter().zip(reqs.iter()).zip(answers.iter()).zip(oracles.iter()) {
     let parsed = Sexp::parse(ans);
     let m_list: Vec<Sexp> = parsed.as_ref().and_then(|a| field_list(a, "model")).unwrap_or_default();
@@ -1281,12 +1478,24 @@ fn run_http(cfg: &Cfg, rep: &mut Report, model: &mut Model, rng: &mut Rng) {
     for (r, o) in seq.iter().zip(os.iter()) {
       let w = svc.wire(r);
       n_requests += 1;
-      let shown = format!("{} {} {}", w.method, w.path, String::from_utf8_lossy(&w.body).chars().take(200).collect::<String>());
+      let note = match r {
+        Rq::Add(Content::Rejected(t)) | Rq::Replace(Content::Rejected(t)) => format!(" (the content is the Base64 text of {:?})", t.chars().take(300).collect::<String>()),
+        _ => String::new(),
+      };
+      let shown = format!("{} {} {}{}", w.method, w.path, String::from_utf8_lossy(&w.body).chars().take(200).collect::<String>(), note);
       let input = format!("{} ;; request #{} = {} ;; after: {}", req, transcript.len() + 1, shown, transcript.join(" | "));
       let a = match http(server.port, w.method, &w.path, w.content_type, &w.body) {
         Ok(a) => a,
         Err(e) => {
           let alive = server.alive();
+          if alive && unanswered < 12 && !matches!(r, Rq::Framework(_)) {
+            // the service runs on but this request got no response: the requests that follow are still looked at
+            unanswered += 1;
+            rep.disagree(Kind::ImplVsSpec, "http", "a request is not answered: the connection ends without a response", &input, &e, "a JSON answer");
+            transcript.push(format!("{} {} (no answer)", w.method, w.path));
+            k += 1;
+            continue;
+          }
           rep.disagree(Kind::ImplVsSpec, "http", "the service stopped answering", &input, &format!("{} (process alive: {})", e, alive), "an answer");
           break 'seqs;
         }
